@@ -5,6 +5,9 @@ stdin:  {"info": true}  -> the defaults the harness needs (read from isobar.cons
         {"cases": [case, ...]} with
           case = {"N": ticks_per_beat, "mode": "linear"|"cosine", "pre": ticks run before schedule(), "nticks": total ticks,
                   "quantize": x|null, "delay": x|null, "count": n|null, "ignore_exceptions": bool,
+                  "changes": [{"tick": k, "N": n, "how": "set"|"swap"|"clock"}, ...]   (optional; made after schedule(), before tick k:
+                              timeline.ticks_per_beat = n | timeline.clock_source = DummyClock(ticks_per_beat=n) |
+                              timeline.clock_source.ticks_per_beat = n),
                   "form": "dict", "fields": {key: {"seq": [v, ...], "loop": bool} | {"const": v}}      (dict of patterns)
                 | "form": "seq",  "events": [{key: v, ...}, ...]}                                     (pattern of dicts)
         values: JSON ints / floats / strings / null / bools are passed to isobar as they are.
@@ -97,8 +100,17 @@ def run_case(case):
             if case.get(k) is not None:
                 kw[k] = case[k]
         tl.schedule(build_events(case), interpolate=case["mode"], **kw)
+        changes = case.get("changes") or []
         for t in range(case["pre"], case["nticks"]):
             dev.now = t
+            for ch in changes:
+                if ch["tick"] == t:
+                    if ch["how"] == "set":
+                        tl.ticks_per_beat = ch["N"]
+                    elif ch["how"] == "swap":
+                        tl.clock_source = iso.DummyClock(ticks_per_beat=ch["N"])
+                    else:
+                        tl.clock_source.ticks_per_beat = ch["N"]
             tl.tick()
     except Exception as e:
         out["exc"] = [t, type(e).__name__]
